@@ -4,7 +4,7 @@ CONSTANTS
   Tier = "@TIER@"
 INIT FamInit
 NEXT Next
-INVARIANTS NoStuck HeapWF AnyConcrete
+INVARIANTS NoStuck HeapWF AnyConcrete TypeSound
 PROPERTIES OutGrows
 CONSTRAINT Emit
 CHECK_DEADLOCK FALSE
